@@ -294,10 +294,10 @@ fn translate_block(
                     semantics::lw(&mut instruction_graph, &instruction)
                 }
                 capstone::mips_insn::MIPS_INS_LWL => {
-                    semantics::lwl(&mut instruction_graph, &instruction)
+                    semantics::lwl(&mut instruction_graph, &instruction, &endian)
                 }
                 capstone::mips_insn::MIPS_INS_LWR => {
-                    semantics::lwr(&mut instruction_graph, &instruction)
+                    semantics::lwr(&mut instruction_graph, &instruction, &endian)
                 }
                 capstone::mips_insn::MIPS_INS_MADD => {
                     semantics::madd(&mut instruction_graph, &instruction)
@@ -411,10 +411,10 @@ fn translate_block(
                     semantics::sw(&mut instruction_graph, &instruction)
                 }
                 capstone::mips_insn::MIPS_INS_SWL => {
-                    semantics::swl(&mut instruction_graph, &instruction)
+                    semantics::swl(&mut instruction_graph, &instruction, &endian)
                 }
                 capstone::mips_insn::MIPS_INS_SWR => {
-                    semantics::swr(&mut instruction_graph, &instruction)
+                    semantics::swr(&mut instruction_graph, &instruction, &endian)
                 }
                 capstone::mips_insn::MIPS_INS_SYNC => {
                     semantics::nop(&mut instruction_graph, &instruction)
